@@ -1,6 +1,6 @@
 #!/bin/bash
 # stop every background sensitivity batch (tools/process_mutants.sh and what it started)
-for pat in "run_sweep.sh" "process_mutants.sh" "tools/mutant.sh" "vet_mutant.sh" "mut-slot-[0-9]*/target" "vet-wt-"; do
+for pat in "run_sweep_tail.sh" "run_sweep.sh" "process_mutants.sh" "tools/mutant.sh" "vet_mutant.sh" "mut-slot-[0-9]*/target" "vet-wt-"; do
   for pid in $(pgrep -f "$pat"); do
     [ "$pid" != "$$" ] && kill "$pid" 2>/dev/null
   done
